@@ -22,7 +22,8 @@ func asmFile(a *common.AsmFile) *generator.File {
 
 func init() {
 	ft := generator.NewGolangFile()
-	props["C09"] = common.AsmProperty(common.AsmImpl{
+	// "ex": the lines the generators contribute reach the file through the real ExecutePackage/ExecuteTarget
+	props["C09"] = common.Combine(map[string]common.Property{"ex": common.ExecProperty(execImpl(), "C04", common.ExecGenContributions), "asm": common.AsmProperty(common.AsmImpl{
 		Assemble: func(a *common.AsmFile) []byte {
 			var b bytes.Buffer
 			ft.Assemble(&b, asmFile(a))
@@ -36,7 +37,7 @@ func init() {
 				GeneratorList: []generator.Generator{generator.DefaultGen{OptionalName: "doc"}, generator.DefaultGen{OptionalName: "other", OptionalBody: []byte(otherBody)}}}
 			return c.ExecutePackage(dir, p)
 		},
-	})
+	})})
 }
 
 var _ = filepath.Join
